@@ -1877,11 +1877,7 @@ mzd_t *mzd_extract_l(mzd_t *L, mzd_t const *A) {
   rci_t k = MIN(A->nrows, A->ncols);
   if (L != NULL) { assert(L->nrows == k && L->ncols == k); }
   L = mzd_submatrix(L, A, 0, 0, k, k);
-  for (rci_t i = 0; i < L->nrows - 1; i++) {
-    word *row = mzd_row(L, i);
-    if (m4ri_radix - (i + 1) % m4ri_radix)
-      mzd_clear_bits(L, i, i + 1, m4ri_radix - (i + 1) % m4ri_radix);
-    for (wi_t j = (i / m4ri_radix + 1); j < L->width; j++) { row[j] = 0; }
-  }
+  /* clear the columns right of the diagonal, but nothing beyond the last column of L */
+  for (rci_t i = 0; i < L->nrows - 1; i++) { mzd_row_clear_offset(L, i, i + 1); }
   return L;
 }
